@@ -23,6 +23,11 @@ import RecipeGrid.Model.Links
       `loop/../x` comes back as `<dir>/x` with `x` not resolved: `resolvePy` models exactly this (with `kwalk`, the
       kernel's own strict lookup with its limit of 40 links, for the `stat()`), and `resolve` is the part of it that
       meets no loop (`none` otherwise). Checked against CPython 3.12.1 on generated trees (see the harness).
+    * The decision exists in three versions: `decideLinkP1` (one `resolve()`: the code up to commit 5662881, which
+      serves a link out of the root after `loop/..`), `decideLinkP2` (`resolve().resolve()`, commit 5662881; still
+      not enough when a link's *target* contains `..` after a loop), and `decideLinkP` -- the code now, commit
+      f55deed: one `resolve()` and the refusal of a result on which some component is a symbolic link; for it
+      containment and non-interference are proved unconditionally (Props/C16b).
     * Fuel. `walk` is bounded by `maxExpansions` = 4096 link expansions, only to be a total function: a loop is detected
       before, but a loop-free resolution can need exponentially many expansions without a memo. Running out of fuel is
       the separate answer `outOfFuel` / `gaveUp`, about which nothing is claimed (CPython would resolve).
@@ -250,6 +255,36 @@ def resolvePy (fs : Fs) (p : Path) : Resolved :=
     | .eloop => .eloop
     | _ => .ok n
 
+/-- `Path(...).resolve().resolve()`: the first repair (commit 5662881) -- the second call resolves what the first one
+    may have left unresolved after a loop. (Not enough: the second call can fall back in the same way, see
+    `double_resolve_leaks` in Props/C16b.) -/
+def resolvePy2 (fs : Fs) (p : Path) : Resolved :=
+  match resolvePy fs p with
+  | .ok n => resolvePy fs n
+  | r => r
+
+/-- no prefix `acc ++ [c₁ … cₖ]` (k ≥ 1) of `acc ++ s` is a symbolic link -/
+def noLinkPrefix (fs : Fs) : Path → Path → Bool
+  | _, [] => true
+  | acc, c :: rest => (fs.linkAt (acc ++ [c])).isNone && noLinkPrefix fs (acc ++ [c]) rest
+
+/-- `not any(p.is_symlink() for p in (q, *q.parents))`: the path is physical -/
+def Fs.isPhysical (fs : Fs) (q : Path) : Bool := noLinkPrefix fs [] q
+
+/-- the paths `isPhysical` looks at -/
+def prefixesOf : Path → Path → List Path
+  | _, [] => []
+  | acc, c :: rest => (acc ++ [c]) :: prefixesOf (acc ++ [c]) rest
+
+/-- the repair in force (commit f55deed): one `resolve()`, then refuse (`RuntimeError("Symlink loop from ...")`) a
+    result that still has a symbolic link on it. `is_symlink()` of a path whose ancestors are no links is `lstat` of
+    that very path, and an ancestor that is a link is itself among the paths tested, so on a well-formed file system
+    the test is `isPhysical`. -/
+def resolveChecked (fs : Fs) (p : Path) : Resolved :=
+  match resolvePy fs p with
+  | .ok n => if fs.isPhysical n then .ok n else .eloop
+  | r => r
+
 /-- `Path.exists()` -/
 def Fs.exists (fs : Fs) (p : Path) : Bool := (fs.statNode p).isSome
 /-- `Path.is_file()` -/
@@ -382,19 +417,21 @@ inductive Outcome where
   | gaveUp
 deriving Repr, Inhabited, DecidableEq
 
-/-- `resolve_local_links.rewrite_link`; `isPage`: membership in the keys of `source_to_page_paths` -/
-def decideLinkP (isPage : Path → Bool) (fs : Fs) (root sourceDir : Path) (url : Str) : Outcome :=
+/-- `resolve_local_links.rewrite_link`. `res`: how `fspath` is resolved; `resRoot`: how `root` is resolved; `isPage`:
+    membership in the keys of `source_to_page_paths` -/
+def decideLinkWith (res resRoot : Fs → Path → Resolved) (isPage : Path → Bool) (fs : Fs) (root sourceDir : Path)
+    (url : Str) : Outcome :=
   match localTarget root sourceDir url with
   | .untouched => .untouched
   | .invalid => .missing
   | .path raw =>
-    match resolvePy fs raw with
+    match res fs raw with
     | .eloop => .loop
     | .outOfFuel => .gaveUp
     | .ok q =>
       if isPage q then .page q
       else
-        match resolvePy fs root with
+        match resRoot fs root with
         | .eloop => .loop
         | .outOfFuel => .gaveUp
         | .ok rr =>
@@ -403,6 +440,19 @@ def decideLinkP (isPage : Path → Bool) (fs : Fs) (root sourceDir : Path) (url 
             match fs.statNode q with
             | some (.file content) => .asset (q.drop rr.length) content
             | _ => .missing
+
+/-- the code as it is now (commit f55deed): `fspath.resolve()` followed by the refusal of a result that still has a
+    symbolic link on it; `root.resolve()` as before -/
+def decideLinkP (isPage : Path → Bool) (fs : Fs) (root sourceDir : Path) (url : Str) : Outcome :=
+  decideLinkWith resolveChecked resolvePy isPage fs root sourceDir url
+
+/-- the code before commit 5662881: a single `fspath.resolve()` (leaks: `single_resolve_leaks` in Props/C16b) -/
+def decideLinkP1 (isPage : Path → Bool) (fs : Fs) (root sourceDir : Path) (url : Str) : Outcome :=
+  decideLinkWith resolvePy resolvePy isPage fs root sourceDir url
+
+/-- the code of commit 5662881: `fspath.resolve().resolve()` (still leaks: `double_resolve_leaks`) -/
+def decideLinkP2 (isPage : Path → Bool) (fs : Fs) (root sourceDir : Path) (url : Str) : Outcome :=
+  decideLinkWith resolvePy2 resolvePy isPage fs root sourceDir url
 
 def endsWithMd (c : Str) : Bool := c.reverse.take 3 == ['d', 'm', '.']
 
